@@ -3,6 +3,7 @@ SPEC = {
     "components": [
         {"comp": "dedup", "module": "QV.Model.Dedup", "quick": 2000, "thorough": 24000},
         {"comp": "pkt_accept", "module": "QV.Model.PktAccept", "quick": 600, "thorough": 6000},
+        {"comp": "cid_queue", "module": "QV.Model.CidQueue", "quick": 400, "thorough": 10000},
         {"comp": "sim_c04", "module": "QV.Sys.MonC04", "quick": 60, "thorough": 1500},
     ],
     "assumptions": [
@@ -21,7 +22,9 @@ MANIFEST = {
              "missing_in_interval and the debug-assertion panics; WINDOW_SIZE is read from the compiled crate. "
              "Also proved on a decision model of packet_crypto.rs (correspondence-tested with stub keys): decrypt_packet_body accepts "
              "a packet only under the key legitimate for its header/key phase/packet number (incl. KEY_UPDATE_ERROR conditions), and "
-             "unprotect_header flags a stateless reset iff the datagram is >= 21 bytes and ends with exactly the expected token."),
+             "unprotect_header flags a stateless reset iff the datagram is >= 21 bytes and ends with exactly the expected token; "
+             "and on the CidQueue model (shared with C03): the reset token handed to the endpoint whenever the active remote CID "
+             "changes is the token issued with the CID active afterwards (C04_reset_token_follows_active_cid)."),
     "note": ("Trusted: Coq kernel + vm_compute; hand-written model whose agreement with the code is sampled, not proved; hook "
              "interpreter; python driver. No axioms. The rest of the packet-acceptance pipeline (handle_first_packet / first-Initial duplicate F5, Retry and "
              "Version Negotiation acceptance, the glue from decrypt result to dedup.insert) is not covered at this level."),
